@@ -57,9 +57,9 @@ type Task struct {
 	lockDepth   int
 	pendingDrop bool
 	wokeAt      time.Duration // simulated instant at which the last real blocking operation fired
-	fn      func(*Task)
-	which   string
-	started bool
+	fn          func(*Task)
+	which       string
+	started     bool
 	// syncWord carries one happens-before edge from this task to the scheduler each time the task parks
 	// with a readiness predicate: the scheduler evaluates the predicate (which may read program memory,
 	// e.g. a pointer to a mutex) on the task's behalf and must know what the task knew. Tasks only store
@@ -895,7 +895,25 @@ func (s *Sim) Run() {
 		s.cur = t
 		t.state = tsRunning
 		t.wake <- 1
-		<-s.yielded
+		select {
+		case <-s.yielded:
+		case <-s.horizon:
+			// the token holder neither came back nor told the simulator that it blocks, and the whole
+			// horizon of simulated time went by: it sits in a blocking operation nobody will ever complete
+			// (a bare channel operation or timer wait the hooks do not cover). A wait that can end, ends
+			// long before the horizon, because the clock jumps whenever everything is blocked.
+			s.mu.Lock()
+			t.state = tsBlocked
+			t.point = "blocked-in-an-operation-unknown-to-the-simulator"
+			s.mu.Unlock()
+			s.Hang = &HangReport{Kind: "horizon", Tasks: s.describeTasks(), Waits: s.describeWaits()}
+			s.Aborted = "hang"
+			s.cur = nil
+			s.abort()
+		}
+		if s.Aborted != "" {
+			break
+		}
 		s.cur = nil
 	}
 	s.cur = nil
